@@ -37,7 +37,7 @@ var (
 	reRGraph    = regexp.MustCompile(`\.(decorateObject|decorateScope|restoreObject|restoreScope)#|#graph:`)
 	reRSave     = regexp.MustCompile(`\(\*decorator\.Package\)\.save#`)
 	reRErrors   = regexp.MustCompile(`#errors:|error_returned_before|decorating_functions_never_store`)
-	reRImports  = regexp.MustCompile(`updateImports(\$\d+)?#loop|#imports:`)
+	reRImports  = regexp.MustCompile(`updateImports(\$\d+)?#loop|#imports:|#imports-path:`)
 	reRDecList  = regexp.MustCompile(`\(\*dst\.Decorations\)\.(\w+)#`)
 )
 
